@@ -11,6 +11,9 @@ PLANS = {"quick": [(1, "SUPER_", 2000, 12), (1, "CHR", 500, 12), (2, "SUPER_", 2
                       (2, "SUPER_", 10000, 8, "HAP2")]}
 
 
+PV_CAP = {"quick": 2500, "thorough": 12000}
+
+
 def export(run, haps, prefix, n, maxchr, k, firsthap="HAP1"):
     cfg = (f'INIT Init\nNEXT Next\nCHECK_DEADLOCK FALSE\nCONSTRAINT Emit\nCONSTANTS NScen = {n} MaxChr = {maxchr} Haps = {haps} Prefix = "{prefix}" '
            f'FirstHap = "{firsthap}"\n')
@@ -26,7 +29,7 @@ def main(tier, replay=None):
     run = C.Run("C10", tier)
     if replay:
         tr = json.load(open(replay))["trace"]
-        sc = {k: tr[k] for k in ("tn", "td", "naming", "valid", "input", "map", "cls", "haps", "prefix", "nhaps")}
+        sc = {k: tr[k] for k in ("tn", "td", "naming", "valid", "input", "map", "cls", "haps", "prefix", "nhaps", "style") if k in tr}
         sc["tid"] = 1
         traces = [R.run_scenario(sc)]
         jr = R.judge(run, traces, ["C10"])
@@ -53,6 +56,21 @@ def main(tier, replay=None):
     for i, s in enumerate(scen, 1):
         s["tid"] = i
     traces = C.pmap("harness.remap_engine", "run_scenario", scen, chunk=200)
+    # uniqueness of names within an assembly also on maps with real geometry: tagged PretextView-model maps (cut and moved pieces, Target mode,
+    # sequence absent from the map) of plain and of haplotype-resolved assemblies
+    rng = random.Random(C.seed() + 3)
+    pv = []
+    for style in ("plain", "hap"):
+        for tn, td in R.TEXELS[tier]:
+            objs, r = R.export(run, f"pv-tagged-{style}-{tn}-{td}", tn, td, "tagged", 3, 0 if tier == "quick" else 1, 0, cap=PV_CAP[tier], rng=rng, style=style)
+            for o in objs:
+                o["cls"] = "pretextview-tagged/" + style
+            pv += objs
+            exports.append({"haplotypes": 2 if style == "hap" else 1, "prefix": "SUPER_", "max_chromosomes": 0, "scenarios": len(objs), "model_states": r["distinct"],
+                            "model_transitions": r["generated"], "wall_s": r["wall_s"], "model": "PretextView.tla tagged"})
+    for i, s in enumerate(pv, len(scen) + 1):
+        s["tid"] = i
+    traces += C.pmap("harness.remap_engine", "run_scenario", pv, chunk=300)
     jr = R.judge(run, traces, ["C10", "MODEL"])
     n = C.report(run, "C10", jr["V"], {t["tid"]: t for t in traces})
     for m in jr["M"][:5]:
@@ -62,7 +80,7 @@ def main(tier, replay=None):
         status[t["status"] + (":" + t["msg"][:40] if t["status"] != "ok" else "")] = status.get(t["status"] + (":" + t["msg"][:40] if t["status"] != "ok" else ""), 0) + 1
     nchr = {}
     for t in traces:
-        c = len({g["chr"] for g in t["map"] if g["chr"]})
+        c = len({g["chr"] for g in t["map"] if g.get("chr")})
         nchr[c] = nchr.get(c, 0) + 1
     smp = traces[len(traces) // 2]
     cov = {
@@ -72,6 +90,7 @@ def main(tier, replay=None):
         "rule": "genome plans drawn by TLC (RandomElement, seeded) in Chromosomes.tla: 1..12 chromosomes of equal and different sizes, 0..3 unlocs and 0..1 "
                 "haplotigs each in any order inside the Pretext scaffold, name tags X/W/B1/Z, prefixes SUPER_ / CHR, unplaced scaffolds, one haplotype or the "
                 "two-haplotype grouping pattern with 0..2 homologues and Singleton tags; each executed by the real BuildAssembly with chromosome CSV; "
+                "plus tagged maps of the PretextView model (real geometry) for the uniqueness clause; "
                 "non-trivial = more than one Pretext scaffold",
         "exports": exports, "model_drift": len(jr["M"]), "model_conformant": len(jr["M"]) == 0, "run_status": status, "chromosomes_per_scenario": dict(sorted(nchr.items())),
         "chromosome_groups_judged": jr["N"].get("pieces_with_core", 0),
